@@ -6,7 +6,8 @@ TraitList), plus depth-2 sequences on short lists to validate that argument.
 """
 import itertools
 
-from traits.api import CInt, HasTraits, List
+from traits.api import (Any, CInt, HasStrictTraits, HasTraits, List, Property,
+                        Union)
 from traits.trait_list_object import TraitList
 from traits.trait_errors import TraitError
 
@@ -40,6 +41,27 @@ MODES = ("id", "coerce", "reject", "owner")
 #: operation whose result would leave the bounds is refused with TraitError
 #: - property C04 -, every other one behaves as on a list)
 BOUNDS_B = (1, 4)
+#: "ownerp": the list is the value of a validated Property(List(CInt)) whose
+#: setter keeps it elsewhere (reached through the getter, never through the
+#: instance dictionary entry of its own name); "owners": a strict class whose
+#: attribute is Union(None, List(CInt)) and whose items handler was attached
+#: by name before the first mutation (the x_items trait is made on demand)
+UNBOUNDED_OWNERS = ("owner", "ownerp", "owners")
+OWNERS = UNBOUNDED_OWNERS + ("ownerb",)
+COERCING = ("coerce",) + OWNERS
+
+
+class Idx:
+    """an index that is not an int: only __index__"""
+
+    def __init__(self, i):
+        self.i = i
+
+    def __index__(self):
+        return self.i
+
+    def __repr__(self):
+        return "Idx(%d)" % self.i
 
 
 def validator(mode):
@@ -63,7 +85,7 @@ def validator(mode):
 
 
 def model_validate(mode, x):
-    if mode in ("coerce", "owner", "ownerb") and isinstance(x, str):
+    if mode in COERCING and isinstance(x, str):
         if x.lstrip("-").isdigit():
             return int(x)
         raise TraitError("bad")
@@ -74,6 +96,8 @@ def model_validate(mode, x):
 
 def key_of(k):
     if isinstance(k, list):
+        if k[0] == "idx":
+            return Idx(k[1])
         return slice(*k[1:])
     return k
 
@@ -149,7 +173,7 @@ def payload(op):
     """(kind, payload) of values that get inserted by op."""
     name = op[0]
     if name == "setitem":
-        if isinstance(op[1], list):
+        if isinstance(op[1], list) and op[1][0] == "s":
             return "many", op[2]
         return "one", op[2]
     if name == "append":
@@ -357,7 +381,7 @@ def new_items(mode, k, base=100):
     """Replacement payloads of length k (simplest first)."""
     good = [base + i for i in range(k)]
     out = [good]
-    if mode in ("coerce", "owner", "ownerb") and k:
+    if mode in COERCING and k:
         out.append([str(x) for x in good])
         if k >= 1:
             out.append(good[:-1] + ["x"])
@@ -369,7 +393,7 @@ def new_items(mode, k, base=100):
 
 def one_items(mode):
     out = [100]
-    if mode in ("coerce", "owner", "ownerb"):
+    if mode in COERCING:
         out += ["100", "x"]
     if mode == "reject":
         out.append(BAD)
@@ -389,6 +413,10 @@ def ops_for(mode, n, tier, light=False):
         for v in one_items(mode):
             ops.append(("insert", i, v))
     ops.append(("pop",))
+    # keys that are not ints but have __index__ (list accepts them as keys)
+    for i in (-(n + 1), -1, 0, n - 1, n):
+        ops.append(("setitem", ["idx", i], 100))
+        ops.append(("delitem", ["idx", i]))
     for v in one_items(mode):
         ops.append(("append", v))
     maxrep = 2 if light else 4
@@ -480,6 +508,12 @@ def shards(tier):
         out.append({"kind": "all", "mode": "reject", "n": n, "bare": True})
     for n in range(BOUNDS_B[0], BOUNDS_B[1] + 1):
         out.append({"kind": "all", "mode": "ownerb", "n": n})
+    for mode in ("ownerp", "owners"):
+        for n in range(0, 4 if tier == "quick" else 6):
+            out.append({"kind": "all", "mode": mode, "n": n})
+            if n < 2:
+                out.append({"kind": "depth2", "mode": mode, "n": n,
+                            "chunk": 0, "of": 1})
     d2 = 1 if tier == "quick" else 3
     for mode in MODES:
         for n in range(d2 + 1):
@@ -513,20 +547,53 @@ class Owner(HasTraits):
         self.log.append((ev.index, list(ev.removed), list(ev.added)))
 
 
+class OwnerP(HasTraits):
+    x = Property(List(CInt))
+    _kept = Any()
+    log = None
+
+    def _get_x(self):
+        return self._kept
+
+    def _set_x(self, value):
+        self._kept = value
+
+    def _x_items_changed(self, ev):
+        self.log.append((ev.index, list(ev.removed), list(ev.added)))
+
+
+class OwnerS(HasStrictTraits):
+    x = Union(None, List(CInt))
+    log = Any()
+
+
 def fresh(mode, contents, bare=False):
     rec = Rec()
     rec.bare = bare
     if bare:
         # the rejecting validator and nobody listening at all
         return TraitList(contents, item_validator=validator(mode)), rec
-    if mode in ("owner", "ownerb"):
+    if mode == "owners":
         items = rec.extra["items"] = []
-        obs = rec.extra["observer"] = []
+        owner = OwnerS()
+        owner.on_trait_change(lambda ev: items.append(
+            (ev.index, list(ev.removed), list(ev.added))), "x_items")
+        owner.x = list(contents)
+        rec.owner = owner
+        owner.x.notifiers.append(rec)
+        return owner.x, rec
+    if mode in OWNERS:
+        items = rec.extra["items"] = []
 
-        owner = (Owner if mode == "owner" else OwnerB)(x=list(contents))
+        owner = {"owner": Owner, "ownerb": OwnerB, "ownerp": OwnerP}[mode](
+            x=list(contents))
         owner.log = items
-        owner.observe(lambda ev: obs.append(
-            (ev.index, list(ev.removed), list(ev.added))), "x.items")
+        if mode != "ownerp":
+            # (observers follow values kept in the instance dictionary; a
+            #  property's value is not there)
+            obs = rec.extra["observer"] = []
+            owner.observe(lambda ev: obs.append(
+                (ev.index, list(ev.removed), list(ev.added))), "x.items")
         rec.owner = owner
         owner.x.notifiers.append(rec)
         return owner.x, rec
